@@ -7,7 +7,7 @@ import QipVerif.Model.Route
 
 A gate is `NAME/controls/targets/arg/extra` (comma-separated naturals, may be empty);
 `NAME` is one of the names the router distinguishes, `o<k>` for any other gate, `m<k>` for a
-`Measurement`.  `variant=wxyz` with bits for (modFix, roleFix, argFix, measFix); default `fixed`.
+`Measurement`.  `variant=wxyz[c]` with bits for (modFix, roleFix, argFix, measFix[, ccFix]); default `fixed` (= `11110`).
 Answer: `ok G;G;…` | `err shape` | `err notimpl` | `err value` | `bad-op`.
 -/
 open QipVerif QipVerif.Proto QipVerif.Route
@@ -54,7 +54,11 @@ def parseVariant (fs : List String) : Option Variant :=
   | some s =>
     match s.toList with
     | [a, b, c, d] =>
-      if [a, b, c, d].all (fun ch => ch = '0' || ch = '1') then some ⟨a = '1', b = '1', c = '1', d = '1'⟩
+      if [a, b, c, d].all (fun ch => ch = '0' || ch = '1') then some ⟨a = '1', b = '1', c = '1', d = '1', false⟩
+      else none
+    | [a, b, c, d, x] =>
+      if [a, b, c, d, x].all (fun ch => ch = '0' || ch = '1') then
+        some ⟨a = '1', b = '1', c = '1', d = '1', x = '1'⟩
       else none
     | _ => none
 
